@@ -332,13 +332,19 @@ def run_real(c, ctx):
         stream = rep_stream(c)
         calls = [0]
 
-        def fn():
+        # the estimated function takes arguments (every second case): they must reach it unchanged on every call
+        fa, fk = ((3, 'p'), {'scale': 2.5}) if c['max'] % 2 else ((), {})
+        bad_args = []
+
+        def fn(*a, **k):
+            if (a, k) != (fa, fk): bad_args.append((a, k))
             i = calls[0]; calls[0] += 1
             if i >= len(stream): raise IndexError('stream exhausted: more samples drawn than max_samples')
             return stream[i]
-        rs, xs = U_.estimate_from_repeats(fn, rtol=c['rtol'], tol_scale=c['ts'], min_samples=c['min'], max_samples=c['max'],
-                                          get='samples')
+        rs, xs = U_.estimate_from_repeats(fn, *fa, rtol=c['rtol'], tol_scale=c['ts'], min_samples=c['min'], max_samples=c['max'],
+                                          get='samples', **fk)
         obs = _rs_obs(rs)
+        if bad_args: return {'raised': 'WrongArguments', 'msg': 'the function was called with %r' % (bad_args[0],)}
         obs['calls'] = calls[0]; obs['returned'] = len(xs)
         obs['prefix_ok'] = [float(v) for v in xs] == stream[:len(xs)]
         return obs
